@@ -65,6 +65,7 @@ def rw_rename(rng, ap):
         if n.get("shift"):
             n["shift"] = smap[n["shift"]]
     ap2["shifts"] = {smap[k]: v for k, v in ap.get("shifts", {}).items()}
+    rw_rename.last = ap2
     return projects.render(ap2), back
 
 
@@ -164,6 +165,69 @@ def rw_macro(rng, ap):
     return "\n".join(macros) + "\n" + "\n".join(lines), None
 
 
+def model_edges(ap):
+    """request lines for the extracted Model/Parse.v (one per written reference) and how to read the answers"""
+    codes = {}
+
+    def code(x):
+        return codes.setdefault(x, len(codes) + 1)
+
+    def enc(nodes):
+        out = [len(nodes)]
+        for n in nodes:
+            out.append(code(n["id"]))
+            out += enc(n.get("kids", []))
+        return out
+    forest = enc(ap["tasks"])
+    pos = {}
+
+    def index(nodes, path, ipath):
+        for k, n in enumerate(nodes):
+            pos[path + (n["id"],)] = ipath + [k]
+            index(n.get("kids", []), path + (n["id"],), ipath + [k])
+    index(ap["tasks"], (), [])
+    inv = {tuple(v): k for k, v in pos.items()}
+    lines, meta = [], []
+    for p, n in projects.walk(ap["tasks"]):
+        for key in ("deps", "precedes"):
+            for d in n.get(key, []) or []:
+                ref = projects.ref_string(p, tuple(d["to"]), d.get("style", "abs"))
+                nb = len(ref) - len(ref.lstrip("!"))
+                ids = [code(x) for x in ref.lstrip("!").split(".")]
+                lines.append("resolve " + " ".join(map(str, forest + [len(pos[p])] + pos[p] + [nb, len(ids)] + ids)))
+                meta.append((p, key, ref))
+    return lines, meta, inv
+
+
+def parse_correspondence(pairs):
+    """Model/Parse.v (extracted) against _resolve_task_reference / _resolve_precedes: every written reference
+    is resolved by the model to a position; the edge sets per dependent task must equal the implementation's"""
+    bad, n = [], 0
+    for ap, r in pairs:
+        if not r.get("ok") or "deps" not in r["obs"]:
+            continue
+        lines, meta, inv = model_edges(ap)
+        if not lines:
+            continue
+        outs = common.run_driver("miscdriver", lines)
+        want = {}
+        for (p, key, ref), o in zip(meta, outs):
+            n += 1
+            tgt = inv.get(tuple(int(x) for x in o.split("."))) if o not in ("-", ".") and not o.startswith("ERROR") else None
+            if tgt is None:
+                want.setdefault("?unresolved", set()).add((projects.fid(p), ref))
+                continue
+            a, b = (p, tgt) if key == "deps" else (tgt, p)
+            want.setdefault(projects.fid(a), set()).add(projects.fid(b))
+        want = {k: sorted(v) for k, v in want.items()}
+        have = {k: v for k, v in r["obs"]["deps"].items() if v}
+        if want != have:
+            bad.append({"what": "resolved dependency targets differ between Model/Parse.v and the parser",
+                        "model": {k: v for k, v in want.items() if have.get(k) != v}, "parser": {k: v for k, v in have.items() if want.get(k) != v},
+                        "original": projects.render(ap)})
+    return bad, n
+
+
 REWRITES = {"rename": rw_rename, "refstyle": rw_refstyle, "precedes": rw_precedes, "shift": rw_shift, "comments": rw_comments, "macro": rw_macro}
 
 
@@ -174,7 +238,7 @@ def run(ctx):
         base += gens.family(ctx, fam, ctx.n(nq, nt))
     for ap in base[::2]:
         decorate(ctx.rng, ap)
-    texts, metas = [], []
+    texts, metas, renamed = [], [], []
     for ap in base:
         for name in ctx.rng.sample(sorted(REWRITES), 3):
             if name == "shift" and not any(n.get("shift") or n.get("hours") is not None for _, n in projects.walk(ap["resources"])):
@@ -182,10 +246,14 @@ def run(ctx):
             t, back = REWRITES[name](ctx.rng, ap)
             texts.append(t)
             metas.append((ap, name, back))
+            renamed.append(rw_rename.last if name == "rename" else None)
     ra = projects.schedule_all(ctx, base, ledger=False)
     rb = common.run_workers(ctx, "w_sched", [{"text": t, "ledger": False, "timeout": 60} for t in texts])
     orig = {id(ap): r for ap, r in zip(base, ra)}
     bad, stats = [], Counter()
+    pb, nrefs = parse_correspondence(list(zip(base, ra)) + [(a2, r) for a2, r in zip(renamed, rb) if a2 is not None])
+    bad += pb
+    stats["references_resolved_by_model_and_parser"] = nrefs
     for (ap, name, back), t, r in zip(metas, texts, rb):
         a = orig[id(ap)]
         stats["rewrite:" + name] += 1
@@ -216,7 +284,7 @@ def run(ctx):
         violations.append({"no_input": True, "replay": common.write_replay(ctx, {"property": "C15", "kind": "proof obligation no longer checks; no failing input found", "failing_obligations": failing})})
     cov = {"obligations": nob, "discharged": ndis, "checker_cmd": "tools/coqbuild.sh (coqc 8.16.1 full .vo build)", "trusted_base": common.TRUSTED, "files": files,
            "traces_validated_against_impl": len(texts), "input_distribution": dict(stats), "findings": len(bad),
-           "rule": "each generated project (nested trees, relative/absolute references, precedes, container dependencies, shifts, ALAP) is scheduled as written and under 3 of 6 meaning-preserving rewrites: consistent renaming of task/resource/shift ids (local task ids may then coincide across containers), relative <-> absolute references, depends <-> precedes on the other task (options kept: gapduration, gaplength, maxgapduration, onstart, each alone and combined), shift reference <-> inline hours, comments/whitespace (#, //, /* */, inside-comment braces and quotes), attribute lines moved into macros; all task dates compared (ids mapped back)",
+           "rule": "each generated project (nested trees, relative/absolute references, precedes, container dependencies, shifts, ALAP) is scheduled as written and under 3 of 6 meaning-preserving rewrites: consistent renaming of task/resource/shift ids (local task ids may then coincide across containers), relative <-> absolute references, depends <-> precedes on the other task (options kept: gapduration, gaplength, maxgapduration, onstart, each alone and combined), shift reference <-> inline hours, comments/whitespace (#, //, /* */, inside-comment braces and quotes), attribute lines moved into macros; all task dates compared (ids mapped back); every written reference (original and renamed projects, where local ids coincide across containers and with top-level ids) is resolved by the extracted Model/Parse.v and the per-task sets of resolved predecessors are compared with the parser's",
            "samples": [{"rewrite": metas[0][1], "text": texts[0][:900]}]}
     common.finish(ctx, "proof", cov, violations,
                   ["partial: the Lark grammar / lexer is not modelled; the theorems cover reference resolution under renaming and the precedes inversion; everything else is decided by the rewrite runs"])
